@@ -5,9 +5,10 @@
    (accepted or rejected) and every kind of exit, for any coefficient table and any history, given what the two
    policies guarantee in exact arithmetic: the forcing is annihilated by w (the first theorem) and the linear solve
    with alpha I - J, w^T J = 0, maps a right-hand side with w . rhs = 0 to a solution with w . x = 0.
-   Backward Euler clips negative iterates inside its Newton loop and is excluded by the property in that case; its
-   conservation is checked on the implementation (oracle with the clip hook). *)
-From Model Require Import Base ProcessSetM ProcessSetProofs CompositionProofs Rosenbrock RosScratchProofs.
+   Backward Euler clips negative iterates inside its Newton loop; the third theorem states its conservation for every
+   run in whose Newton iterations the clamp left w . y alone (read off the run's own trace), whatever status is
+   returned; the implementation oracle uses the clip hook to recognise those runs. *)
+From Model Require Import Base ProcessSetM ProcessSetProofs CompositionProofs Rosenbrock RosScratchProofs BackwardEulerM IntegratorProofs.
 From Coq Require Import Ring.
 Local Open Scope nat_scope.
 
@@ -36,3 +37,20 @@ Theorem C09_rosenbrock_propagates_linear_invariants :
                                  fuel time_step s))) = dotw (sY s).
 Proof. exact ros_conserves_linear_invariants. Qed.
 Print Assumptions C09_rosenbrock_propagates_linear_invariants.
+
+Theorem C09_backward_euler_propagates_linear_invariants :
+  forall (N : Num) ltb is_zero (V M F : Type) vzero mzero add_diag forcing negjac in_place factor_sep solve_sep
+         factor_ip solve_ip vresid vclamp_add is_converged two (p : be_params N),
+    ring_theory (n0 N) (n1 N) (nadd N) (nmul N) (nsub N) (nopp N) eq ->
+    forall (dotw : V -> T N),
+      (forall y z, dotw (forcing y z) = n0 N) ->                                       (* w . f(y) = 0 *)
+      (forall H f y1 y0, dotw y1 = dotw y0 -> dotw f = n0 N -> dotw (vresid H f y1 y0) = n0 N) ->
+      (forall lu rhs, dotw rhs = n0 N -> dotw (solve_sep lu rhs) = n0 N) ->            (* exact conservative solves *)
+      (forall lu rhs, dotw rhs = n0 N -> dotw (solve_ip lu rhs) = n0 N) ->
+      forall fuel time_step (s : bstate V M F),
+        let r := be_solve N ltb is_zero V M F vzero mzero add_diag forcing negjac in_place factor_sep solve_sep factor_ip
+                          solve_ip vresid vclamp_add is_converged two p fuel time_step s in
+        Forall (clamp_neutral N V M vclamp_add dotw) (br_trace r) ->
+        dotw (bYn1 (br_s r)) = dotw (bYn1 s).
+Proof. exact be_conserves_linear_invariants. Qed.
+Print Assumptions C09_backward_euler_propagates_linear_invariants.
